@@ -546,6 +546,40 @@ def sql_membership(prog: Program) -> RuleResult:
                     f"rows for which in-memory `text in value` is false")
     if n_expr < 3:
         raise AnalysisError("SQL-MEMBERSHIP: fewer than three membership translations found in map_contains_operator")
+    # IN (...) is built from *all* values of the literal collection: 0, '', False and NULL-free falsy values are members like any other.
+    tr = prog.cls(TR)
+    n_in = 0
+    for m in sorted(tr.methods.values(), key=lambda x: x.qual):
+        for c in [c for c in calls_in(m.node) if isinstance(c.func, ast.Attribute) and c.func.attr in ("in_", "not_in") and c.args]:
+            n_in += 1
+            seen_names, todo, exprs = set(), [c.args[0]], []
+            while todo:
+                e = todo.pop()
+                exprs.append(e)
+                for nm in [x.id for x in ast.walk(e) if isinstance(x, ast.Name)]:
+                    if nm in seen_names:
+                        continue
+                    seen_names.add(nm)
+                    todo += [a.value for a in walk_local(m.node) if isinstance(a, ast.Assign) and any(isinstance(t, ast.Name) and t.id == nm for t in a.targets)]
+            bad = None
+            for e in exprs:
+                for x in ast.walk(e):
+                    if isinstance(x, ast.Call) and isinstance(x.func, ast.Name) and x.func.id in ("filter", "compress", "takewhile", "dropwhile"):
+                        bad = bad or x
+                    if isinstance(x, (ast.ListComp, ast.SetComp, ast.GeneratorExp)) and any(g.ifs for g in x.generators):
+                        bad = bad or x
+                    if isinstance(x, ast.Subscript) and isinstance(x.slice, ast.Slice):
+                        bad = bad or x
+                    if isinstance(x, ast.BinOp) and isinstance(x.op, (ast.Sub, ast.BitAnd)):
+                        bad = bad or x
+            for st in walk_local(m.node):
+                if isinstance(st, ast.Call) and isinstance(st.func, ast.Attribute) and st.func.attr in ("remove", "discard", "pop", "difference_update", "clear") and isinstance(st.func.value, ast.Name) and st.func.value.id in seen_names:
+                    bad = bad or st
+            r.check(bad is None, f"{m.short}#in-list-complete[{n_in}]", site(m, bad if bad is not None else c), src(c)[:80], "every value of the collection reaches IN (...)",
+                    f"the values handed to {c.func.attr}() pass through `{src(bad)[:60] if bad is not None else ''}`, which can drop members (filter(None, ...) drops 0, 0.0, False and ''): "
+                    "in_(p.x, [0, 2]) selects the rows with x = 2 only, in memory both")
+    if n_in < 1:
+        raise AnalysisError("SQL-MEMBERSHIP: the translator no longer builds an IN (...) expression")
     return r
 
 
